@@ -571,6 +571,8 @@ MenuF ==
       For2(<<DPrint(Var("i"))>>),
       PanicS(6),
       [k |-> "ret", bare |-> FALSE, e |-> Lit(9)],
+      \* f calls itself once (f(1) -> f(0)): what follows unwinds through two consecutive frames of f
+      [k |-> "if", c |-> Cmp("lt", Lit(0), Var("p")), th |-> << AsgS("r", CallE("f", Bin("sub", Var("p"), Lit(1)))) >>, el |-> <<>>],
       \* arguments of reference kinds are fixed at the defer statement too: the variable is re-assigned afterwards
       Blk(<< [k |-> "mkptr", p |-> "p1", x |-> "g0"], DRef("relp", "p1"), [k |-> "preasg", form |-> "p", p |-> "p1", x |-> "g1", s |-> ""] >>),
       Blk(<< [k |-> "mksl", s |-> "s1", es |-> <<Lit(1), Lit(2), Lit(3)>>], DRef("rels", "s1"),
